@@ -30,6 +30,8 @@ struct State {
     /// shapes of the regions seen (for reporting): (region, n items, leaves)
     log: Vec<(usize, usize, usize)>,
     divergence: Option<String>,
+    /// per active region: (symbolic worker -> concrete thread index, symbolic worker of the running leaf)
+    workers: Vec<(Vec<Option<usize>>, usize)>,
 }
 
 thread_local! {
@@ -150,18 +152,38 @@ pub struct Plan {
     pub tree: Tree,
     /// leaf indices in execution order
     pub order: Vec<usize>,
+    /// symbolic worker that runs each leaf: a stolen half runs on a worker of its own
+    pub workers: Vec<usize>,
 }
 
-fn build(lo: usize, len: usize, migrated: bool, mut sp: Splitter, threads: usize, injected_join: bool, leaves: &mut Vec<(usize, usize)>) -> Tree {
+fn build(
+    lo: usize,
+    len: usize,
+    migrated: bool,
+    mut sp: Splitter,
+    threads: usize,
+    injected_join: bool,
+    leaves: &mut Vec<(usize, usize)>,
+    worker: usize,
+    workers: &mut Vec<usize>,
+    next_worker: &mut usize,
+) -> Tree {
     if sp.try_split(len, migrated, threads) {
         let mid = len / 2;
         // is the right half stolen by another worker? (nobody to steal it in a pool of one)
         let stolen = threads > 1 && choose(2, "steal") == 1;
-        let left = build(lo, mid, injected_join, sp, threads, false, leaves);
-        let right = build(lo + mid, len - mid, stolen || injected_join, sp, threads, false, leaves);
+        let thief = if stolen {
+            *next_worker += 1;
+            *next_worker
+        } else {
+            worker
+        };
+        let left = build(lo, mid, injected_join, sp, threads, false, leaves, worker, workers, next_worker);
+        let right = build(lo + mid, len - mid, stolen || injected_join, sp, threads, false, leaves, thief, workers, next_worker);
         Tree::Node(Box::new(left), Box::new(right), stolen)
     } else {
         leaves.push((lo, lo + len));
+        workers.push(worker);
         Tree::Leaf(leaves.len() - 1)
     }
 }
@@ -206,14 +228,72 @@ pub fn plan(n: usize, min_len: usize, max_len: usize) -> Plan {
     let injected = top && !in_pool() && choose(2, "injected") == 1;
     let mut leaves = Vec::new();
     let sp = Splitter::new(min_len, max_len, n, threads);
-    let tree = build(0, n, false, sp, threads, injected, &mut leaves);
+    let mut workers = Vec::new();
+    let mut next_worker = 0usize;
+    let tree = build(0, n, false, sp, threads, injected, &mut leaves, 0, &mut workers, &mut next_worker);
     let order = order_of(&tree);
-    ST.with(|s| s.borrow_mut().log.push((region, n, leaves.len())));
-    Plan { leaves, tree, order }
+    ST.with(|s| {
+        let mut s = s.borrow_mut();
+        s.log.push((region, n, leaves.len()));
+        // a nested region starts on the worker that runs the enclosing leaf
+        let inherited = match s.workers.last() {
+            Some((map, cur)) => map.get(*cur).copied().flatten(),
+            None => None,
+        };
+        let mut map = vec![None; next_worker + 1];
+        map[0] = inherited;
+        s.workers.push((map, 0));
+    });
+    Plan { leaves, tree, order, workers }
 }
 
 pub fn end_region() {
+    ST.with(|s| {
+        s.borrow_mut().workers.pop();
+    });
     leave_region();
+}
+
+/// the leaf with this symbolic worker is about to run
+pub fn set_running_worker(symbolic: usize) {
+    ST.with(|s| {
+        if let Some(w) = s.borrow_mut().workers.last_mut() {
+            w.1 = symbolic;
+        }
+    });
+}
+
+/// Index of the pool thread running the current leaf (None outside any pool / region). Which concrete
+/// thread a symbolic worker is gets decided lazily, the first time somebody asks: any assignment of distinct
+/// threads to distinct workers is possible, so it is a choice.
+pub fn current_thread_index() -> Option<usize> {
+    let (active, threads, have) = ST.with(|s| {
+        let s = s.borrow();
+        (s.active, s.threads.max(1), s.workers.last().map(|(m, c)| (m[*c], *c, m.iter().flatten().copied().collect::<Vec<_>>())))
+    });
+    if !active {
+        return None;
+    }
+    match have {
+        None => {
+            if in_pool() {
+                Some(0)
+            } else {
+                None
+            }
+        }
+        Some((Some(t), _, _)) => Some(t),
+        Some((None, cur, used)) => {
+            let free: Vec<usize> = (0..threads).filter(|t| !used.contains(t)).collect();
+            let t = if free.is_empty() { cur % threads } else { free[choose(free.len(), "thread-id")] };
+            ST.with(|s| {
+                if let Some(w) = s.borrow_mut().workers.last_mut() {
+                    w.0[cur] = Some(t);
+                }
+            });
+            Some(t)
+        }
+    }
 }
 
 // ---------------------------------------------------------------------------------------------
